@@ -36,6 +36,14 @@ def run(ctx):
     texts = list(all_texts("ab\n", 3 if quick else 5))
     progs = small_programs(2 if quick else 3, ctx.rng, 250 if quick else 6000)
     extra = [{"src": "find all " + p, "texts": texts} for p in progs]
+    # mandatory counts well above the small scope, with bodies that can match the empty string (the unrolled form accepts
+    # empty iterations, a counted loop would not) and bodies that cannot
+    long_texts = ["", "aaa", "aaaaaaaaaa", "x123; x;", "aab", "abababababab"]
+    for n in (8, 9, 10):
+        for body in ("(maybe 'a')", "'a'", "(at least 0 'a' fewest)", "(maybe digit)", "line start"):
+            extra.append({"src": "find all exactly %d %s" % (n, body), "texts": long_texts})
+            extra.append({"src": "find all 'x' at least %d %s ';'" % (n, body), "texts": long_texts})
+            extra.append({"src": "find all between %d and %d %s 'b'" % (n, n + 2, body), "texts": long_texts})
     cases, gres, dis, stats = run_generated(ctx, 0, extra=extra)
     ctx.coverage["rule"] = ("grammar-generated programs (all constructs of the core language) x 6 texts biased to near-matches, plus programs of up to "
                             "%d constructors over 12 atoms x all texts over {a,b,\\n} up to length %d; each run compared at three layers (bytecode, model VM on "
